@@ -447,6 +447,7 @@ pub fn worker(wi: usize, wn: usize, tier: &str) {
                 continue;
             }
             explore_engine_program(&[writers[a].clone(), writers[b].clone()], Init::FullTomb, bound, 20_000, &mut agg);
+            explore_engine_program(&[writers[a].clone(), writers[b].clone()], Init::FullTombMem, bound, 20_000, &mut agg);
             explore_engine_program(&[writers[a].clone(), writers[b].clone()], Init::SnapEvery, bound, 20_000, &mut agg);
         }
     }
@@ -515,7 +516,7 @@ pub fn run(tier: &str, replay: Option<&str>) -> i32 {
     ev.set("traces_validated_against_impl", tot["executions"]);
     ev.set("evaluations", tot["executions"]);
     ev.set("distinct_nontrivial", tot["programs"]);
-    ev.set("rule", format!("(1) every unordered pair of the 24-operation catalogue (incl. delete-by-filter and ids_for_metadata_filter through the index path and through the reference-matcher scan fallback, delete by closure predicate) x 4 initial states (absent / cold-only / cached / in recent-write tier), plus writer pairs and triples on a persistent engine whose index is full with a tombstone (compaction path) and on one that snapshots after every write (interval 1), as real threads on a fresh TieredEngine, every schedule with <= {bound} preemptions at lock-acquisition granularity under writer-preferring RwLock semantics; (2) every multiset of three operations of the HotTier / VectorCache / QueryHashCache / LearnedCacheStrategy catalogues, <= 2 preemptions; (3) engine-level triples derived from opposite acquisition orders in the single-operation lock traces plus every writer of the read-held lock. Verdict per execution: some thread unfinished and none enabled = deadlock. states/transitions = scheduling points executed (stateless search: states are not stored)"));
+    ev.set("rule", format!("(1) every unordered pair of the 24-operation catalogue (incl. delete-by-filter and ids_for_metadata_filter through the index path and through the reference-matcher scan fallback, delete by closure predicate) x 4 initial states (absent / cold-only / cached / in recent-write tier), plus writer pairs and triples on a persistent engine whose index is full with a tombstone (compaction path, with and without persistence) and on one that snapshots after every write (interval 1), as real threads on a fresh TieredEngine, every schedule with <= {bound} preemptions at lock-acquisition granularity under writer-preferring RwLock semantics; (2) every multiset of three operations of the HotTier / VectorCache / QueryHashCache / LearnedCacheStrategy catalogues, <= 2 preemptions; (3) engine-level triples derived from opposite acquisition orders in the single-operation lock traces plus every writer of the read-held lock. Verdict per execution: some thread unfinished and none enabled = deadlock. states/transitions = scheduling points executed (stateless search: states are not stored)"));
     ev.set("samples", json!([{"pair":["insert(1,w1)","flush_hot_tier(force)"],"init":"Hot"},{"component_triple":["HtGet(1)","HtInsert(2)","HtDelete(1)"]}]));
     ev.set("exhaustive", tot["capped"] == 0);
     ev.set("programs", tot["programs"]);
